@@ -296,7 +296,15 @@ def view_ctx(ctx, policy):
     if policy not in views:
         import inline
         try:
-            f2, done = inline.build_view(ctx.facts, policy, roles=ctx.roles)
+            protect = set()
+            if policy == "module":
+                # functions the rules anchor on (movers, replacers, hashing helpers, copiers, accessors) keep their own bodies
+                from rules_typestate import movers, takers, replacer_sites, ret_is_some_fns, installs_left
+                from rules_hasher import hash_fns, hasher_makers
+                from rules_clone import copiers
+                protect = set(movers(ctx)) | set(takers(ctx)) | {b.path for b, _, _ in replacer_sites(ctx)} | set(ret_is_some_fns(ctx)) \
+                    | {b.path for b, _ in installs_left(ctx)} | set(hash_fns(ctx)) | set(hasher_makers(ctx)) | set(copiers(ctx))
+            f2, done = inline.build_view(ctx.facts, policy, roles=ctx.roles, protect=protect)
         except Exception:
             import traceback
             import sys
